@@ -227,6 +227,8 @@ def inverse_rules(repo, rep):
 
 def run(repo, rep):
     alg.reset()
+    from .. import symcheck as _sc
+    _sc.set_ranges({'x': (1.0e6, 4.0e7), 'y': (1.0e6, 4.0e7), 'z': (1.0e6, 4.0e7), 'h': (-1.0e4, 4.0e7)})
     common.typecheck_rules(repo, rep)
     common.state_rule(repo, rep, [('geodepy.convert', 'llh2xyz'), ('geodepy.convert', 'xyz2llh')])
     common.ellipsoid_rules(repo, rep, projections=False)
